@@ -22,6 +22,8 @@ import Sck.Driver.BruteOps
 import Sck.Driver.FlowHelperOps
 import Sck.Driver.ValidateOps
 import Sck.Driver.L3Ops
+import Sck.Driver.GsMirrorOps
+import Sck.Driver.MirrorOps
 import Sck.Driver.RuleOps
 import Sck.Model.Profile
 import Sck.Model.Preflib
@@ -475,7 +477,7 @@ def dispatch : String → Option (P String)
   | "preflib" => some opPreflib
   | "prefrow" => some opPrefRow
   | op => (((((dispatchDfs op).orElse (fun _ => dispatchBvn op)).orElse (fun _ => dispatchIrving op)).orElse (fun _ => dispatchRules op)).orElse
-      (fun _ => dispatchBrute op)).orElse (fun _ => dispatchFlowHelpers op) |>.orElse (fun _ => dispatchValidate op) |>.orElse (fun _ => dispatchL3 op)
+      (fun _ => dispatchBrute op)).orElse (fun _ => dispatchFlowHelpers op) |>.orElse (fun _ => dispatchValidate op) |>.orElse (fun _ => dispatchL3 op) |>.orElse (fun _ => dispatchGsMirror op) |>.orElse (fun _ => dispatchMirror op)
 
 def handle (line : String) : String :=
   let toks := (line.splitOn " ").map (fun s => s.trimAscii.toString) |>.filter (· ≠ "")
